@@ -11,6 +11,8 @@ import Hw.Io.SyntheticDump
 import Hw.Io.SyntheticDumpLemmas
 import Hw.Io.SyntheticFilter
 import Hw.Io.SyntheticFilterLemmas
+import Hw.Io.SyntheticWFAll
+import Hw.Io.SyntheticFix
 namespace Hw.Props.C07
 open Hw Hw.Syn Hw.Topo
 
@@ -235,6 +237,93 @@ theorem C07_dump_structure (t : Topo) :
       ∃ r, (toDump t).objs[0]? = some r ∧ r.type = tMACHINE ∧ r.depth = 0 ∧ r.parent = -1 ∧ r.id = 0) ∧
     ((toDump t).levels.length = (toDump t).depth + 6 ∧ (toDump t).typeDepths.length = tMAX) :=
   ⟨toDump_ids t, toDump_id_is_position t, toDump_root t, toDump_levels_listed t⟩
+
+/-! ### build_wf — general (unbounded depth, arities, memory children, index sequences) -/
+
+/-- **build_wf, clause by clause, for EVERY abstract topology** that satisfies the decidable side condition `topoOK`
+(positive arities, normal non-Machine level types, PU level last and only there, no memory on PUs, PU os_indexes = `puIdx`,
+cache levels carry the depth/kind of their type), `puOK` (`puIdx` has one distinct entry per PU) and `memOK` (there is a
+NUMA node) and `numaOK` (`numaIdx` has one distinct entry per NUMA node) — the driver evaluates all four on every topology `buildTopo` returns and hwloc agrees with: every clause of `Hw.Topo.WF` named in `provedTopClauses` / `provedObjClauses` holds for `toDump t` — the tree
+links (parent, children arrays, sibling links and ranks, memory-children lists: heads and doubly linked order), depth and
+level tables (root level, PU level deepest, every level listed and non-empty, level types), PU cpusets and NUMA nodesets
+are singletons of the os_index, **the cpuset of every normal non-PU object is the disjoint union of its children's cpusets**
+(through the real aggregate fold `mkAux`), total_memory = local memory + the children's totals, child counts per kind,
+unique PU os_indexes, cpusets and nodesets included in the parent's, the type→depth table is the inverse of the level
+table, every object sits in the level of its depth at its logical index with the cousin links of its neighbours (normal
+levels and the NUMA / MemCache special levels: the closed-form position `postPos` is the position in the recursive DFS
+listing), the levels list exactly as many objects as the dump has, every level entry is an object of that depth with that logical
+index, every level is in DFS (tree) order, unique NUMA os_indexes, a NUMA node exists, NUMA nodesets inside the allowed set, memory-side-cache nodesets, PU cpusets inside the allowed
+set, memory children share their parent's cpuset, cache and group attributes, allowed sets, unique gp_index, object count.  No bound on the depth, the arities, the number of memory children or the index values. -/
+theorem C07_build_wf_clauses (t : Topo) (h : topoOK t = true) (hp : puOK t = true) (hm : memOK t = true)
+    (hn : numaOK t = true) :
+    (∀ c ∈ topClauses, c.1 ∈ provedTopClauses → c.2 (toDump t) (mkAux (toDump t)) = true) ∧
+    (∀ c ∈ objClauses, c.1 ∈ provedObjClauses → ∀ o ∈ (toDump t).objs, c.2 (toDump t) (mkAux (toDump t)) o = true) :=
+  ⟨top_clauses_proved t (topoOK_OK t h) hp hm hn, obj_clauses_proved t (topoOK_OK t h) hp⟩
+
+/-- **build_wf, partial**: for every such topology the whole conjunction `WF (toDump t)` follows from the clauses that are
+NOT yet proved in general (`restOK`: the executable check of exactly those clauses; they stay table-only —
+C07_build_wf_bounded — and oracle-checked per case).  Missing for the full theorem: see `C07_build_wf_unproved_clauses`. -/
+theorem C07_build_wf_partial (t : Topo) (h : topoOK t = true) (hp : puOK t = true) (hm : memOK t = true)
+    (hn : numaOK t = true) (hr : restOK (toDump t) = true) : WF (toDump t) :=
+  wf_of_rest t (topoOK_OK t h) hp hm hn hr
+
+/-- ... and conversely: under the side conditions, `WF (toDump t)` is EQUIVALENT to the two unproved clauses -/
+theorem C07_build_wf_reduction (t : Topo) (h : topoOK t = true) (hp : puOK t = true) (hm : memOK t = true)
+    (hn : numaOK t = true) : WF (toDump t) ↔ restOK (toDump t) = true :=
+  ⟨restOK_of_wf _, C07_build_wf_partial t h hp hm hn⟩
+
+/-- non-vacuity of the `restOK` hypothesis: it holds on the whole bounded family -/
+example : ∀ t ∈ wfFamily, restOK (toDump t) = true := fun t ht => restOK_of_wf _ (C07_build_wf_bounded t ht)
+
+/-- exactly which clauses remain unproved in general -/
+theorem C07_build_wf_unproved_clauses :
+    (topClauses.map (·.1)).filter (fun n => !provedTopClauses.contains n) =
+      [] ∧
+    (objClauses.map (·.1)).filter (fun n => !provedObjClauses.contains n) =
+      ["nodeset-decomposition", "siblings-ordered"] := by
+  decide
+
+/-- non-vacuity: the whole bounded family satisfies the side condition, and so does a 5-level topology outside it
+(Package:3 [2 NUMA, one with a memory-side cache] / L3:2 / Core:2 / PU:2) -/
+example : wfFamily.all (fun t => topoOK t && puOK t && memOK t && numaOK t) = true := by decide
+example : (fun t => topoOK t && puOK t && memOK t && numaOK t) (orderTopo [] [{ type := tPACKAGE, arity := 3, mem := [⟨1024, 0⟩, ⟨2048, 512⟩] },
+    { type := tL1 + 2, arity := 2, cdepth := 3, ctype := 0, size := 1048576 }, { type := tCORE, arity := 2 }, { type := tPU, arity := 2 }]
+    (List.range 24) (List.range 6)) = true := by decide
+
+/-! ### export_fixpoint — general, for the flag word NO_ATTRS | IGNORE_MEMORY -/
+
+/-- **export / re-import fixpoint, partial.**  For EVERY abstract topology `t` (any depth, arities, memory, indexes) whose
+levels carry canonical type names (`specsOf t.levels = some specs`: e.g. every cache level has the depth and kind of its
+type) and obey the parser's documented limits (`acceptsB specs`: one PU level, last; at most one Package/Die/Core level;
+at most 125 levels; number of PUs fits an unsigned long), under the flags NO_ATTRS | IGNORE_MEMORY:
+(1) hwloc_topology_export_synthetic succeeds and writes exactly the canonical description `printDesc specs`;
+(2) `parse` accepts that string and reads back exactly the exported level types and arities, below the Machine root and the
+    implicit NUMANode level;
+(3) the exported string depends on the level structure (type, cache depth/kind, arity per level) only: every topology with
+    that structure - in particular the re-imported one - exports to the same string (export∘import∘export = export).
+PARTIAL: the other 15 flag words (attributes, memory children, index lists in the exported string) and the step
+"`buildTopo` of the re-parsed levels has these level keys" are not proved in general; they are checked per generated
+case by the engine (ops `fix`, all flag words), where the three claims above are also re-evaluated against hwloc's string. -/
+theorem C07_export_fixpoint_partial (t : Topo) (specs : List LSpec) (hs : specsOf t.levels = some specs)
+    (ha : acceptsB specs = true) :
+    (exportChunks t fixFlags).ok = true ∧ text (exportChunks t fixFlags).chunks = printDesc specs ∧
+    (∃ p, parse (text (exportChunks t fixFlags).chunks) = .ok p ∧
+      p.levels.map (·.attr.type) = expectedTypes specs ∧ p.levels.map (·.arity) = expectedArities specs) ∧
+    ∀ t' : Topo, t'.levels.map levelKey = t.levels.map levelKey →
+      (exportChunks t' fixFlags).ok = true ∧ text (exportChunks t' fixFlags).chunks = text (exportChunks t fixFlags).chunks := by
+  obtain ⟨h1, h2⟩ := export_fix_text t specs hs
+  refine ⟨h1, h2, ?_, ?_⟩
+  · rw [h2]; exact parse_faithful specs (acceptsB_sound specs ha)
+  · intro t' hk
+    have hs' : specsOf t'.levels = some specs := by rw [specsOf_congr t.levels t'.levels hk]; exact hs
+    obtain ⟨h3, h4⟩ := export_fix_text t' specs hs'
+    exact ⟨h3, by rw [h4, h2]⟩
+
+/-- non-vacuity: Package:3 [2 NUMA] / L3:2 / Core:2 / PU:2 exports to "Package:3 L3Cache:2 Core:2 PU:2" -/
+example : (fun t => (specsOf t.levels).map (fun s => (acceptsB s, printDesc s)))
+    (orderTopo [] [{ type := tPACKAGE, arity := 3, mem := [⟨1024, 0⟩, ⟨2048, 512⟩] },
+      { type := tL1 + 2, arity := 2, cdepth := 3, ctype := 0, size := 1048576 }, { type := tCORE, arity := 2 }, { type := tPU, arity := 2 }]
+      (List.range 24) (List.range 6)) = some (true, str "Package:3 L3Cache:2 Core:2 PU:2") := by decide
 
 /-! ### attached NUMA nodes and type filters -/
 
